@@ -59,15 +59,19 @@ func vfGaugeSpec() *core.Spec {
 		return &core.Node{ActionSource: &core.ActionSource{Interpreter: "ecmascript", Source: src},
 			Branches: &core.Branches{Type: "bindings", Branches: []*core.Branch{{Target: next}}}}
 	}
-	return &core.Spec{Name: "gauge", Nodes: map[string]*core.Node{
-		"start": {Branches: &core.Branches{Type: "message", Branches: []*core.Branch{{Pattern: map[string]interface{}{"gauge": "?g"}, Target: "arm"}}}},
-		"arm":   act(`return {"?g": _.bindings["?g"], "n": 0, "limit": _.bindings["?g"] + 1};`, "armed"),
-		"armed": {Branches: &core.Branches{Type: "message", Branches: []*core.Branch{
-			{Pattern: map[string]interface{}{"gauge": "?g"}, Target: "hit"},
-			{Pattern: map[string]interface{}{"gauge": "?"}, Target: "miss"}}}},
-		"hit":  act(`var b = _.bindings; b.n = b.n + 1; _.out({"hit": b.n}); return b;`, "armed"),
-		"miss": act(`var b = _.bindings; b.n = b.n + 1; _.out({"miss": b.n}); return b;`, "armed"),
-	}}
+	return &core.Spec{Name: "gauge",
+		// (a declared parameter with a default: sio takes no notice of it; a binding of that
+		// name that the machine has dropped must stay dropped)
+		ParamSpecs: map[string]core.ParamSpec{"limit": {PrimitiveType: "number", Default: 9.0, Optional: true}},
+		Nodes: map[string]*core.Node{
+			"start": {Branches: &core.Branches{Type: "message", Branches: []*core.Branch{{Pattern: map[string]interface{}{"gauge": "?g"}, Target: "arm"}}}},
+			"arm":   act(`return {"?g": _.bindings["?g"], "n": 0, "limit": _.bindings["?g"] + 1};`, "armed"),
+			"armed": {Branches: &core.Branches{Type: "message", Branches: []*core.Branch{
+				{Pattern: map[string]interface{}{"gauge": "?g"}, Target: "hit"},
+				{Pattern: map[string]interface{}{"gauge": "?"}, Target: "miss"}}}},
+			"hit":  act(`var b = _.bindings; b.n = b.n + 1; _.out({"hit": b.n}); return b;`, "armed"),
+			"miss": act(`var b = _.bindings; b.n = b.n + 1; delete b.limit; _.out({"miss": b.n, "limit": b.limit === undefined ? "none" : b.limit}); return b;`, "armed"),
+		}}
 }
 
 func vfGaugeJSON() interface{} {
@@ -295,6 +299,18 @@ func runC15(c *sim.Ctx, t *testing.T) {
 				chain = m
 			}
 			ops = append(ops, vfOp{kind: "flip", mid: fid, msg: chain})
+		case k == 8 && exists[mid] && c.Chance(1, 6, "longcascade"):
+			// one message that sets off a long chain of self-addressed messages
+			n := 101 + c.Intn(20, "chainlen")
+			var chain map[string]interface{}
+			for h := n; h > 0; h-- {
+				m := map[string]interface{}{"to": mid, "id": fmt.Sprintf("ch%d.%d", i, h)}
+				if chain != nil {
+					m["emit"] = map[string]interface{}{mid: []interface{}{chain}}
+				}
+				chain = m
+			}
+			ops = append(ops, vfOp{kind: "chain", mid: mid, msg: chain})
 		case k == 10 && exists[mid]:
 			// one message for the captain and for the machine it updates: the captain replaces
 			// the machine's state, then the machine itself sees the message
@@ -306,6 +322,11 @@ func runC15(c *sim.Ctx, t *testing.T) {
 			if !exists[gid] {
 				ops = append(ops, vfOp{kind: "create", mid: gid, msg: map[string]interface{}{"to": "captain", "update": map[string]interface{}{gid: map[string]interface{}{"spec": map[string]interface{}{"inline": vfGaugeJSON()}}}}})
 				exists[gid] = true
+			}
+			if c.Chance(1, 4, "gaugestate") {
+				// the host sets the gauge's state outright: a number in a pattern variable
+				ops = append(ops, vfOp{kind: "state", mid: gid, msg: map[string]interface{}{"to": "captain", "update": map[string]interface{}{gid: map[string]interface{}{
+					"state": map[string]interface{}{"node": "armed", "bs": map[string]interface{}{"?g": []interface{}{1.0, 2.0}[c.Intn(2, "armedat")], "n": 0.0}}}}}})
 			}
 			ops = append(ops, vfOp{kind: "gauge", mid: gid, msg: map[string]interface{}{"to": gid, "gauge": []interface{}{1.0, 2.0, 2.5}[c.Intn(3, "reading")]}})
 		case k == 6 && exists[mid]:
